@@ -98,9 +98,9 @@ def category (bits : Bits) : Res Nat :=
 
 /-- eight 6-bit character codes looked up in `chars` -/
 def chars8 (chars : List Char) (cs : Bits) : Res (List Char) :=
-  (List.range 8).mapM (fun i => do
+  Res.mapM (fun i => do
     let c ← bin2intR (slice (6 * i) (6 * i + 6) cs)
-    idxR chars c)
+    idxR chars c) (List.range 8)
 
 /-- bds08.callsign -/
 def callsign (bits : Bits) : Res (List Char) :=
@@ -135,7 +135,7 @@ def airborneVelocity (bits : Bits) : Res (Option Velocity) :=
   let subtype ← bin2intR (slice 5 8 mb)
   let f1 ← bin2intR (slice 14 24 mb)
   let f2 ← bin2intR (slice 25 35 mb)
-  if f1 = 0 ∨ f2 = 0 then pure none else do
+  if (subtype = 1 ∨ subtype = 2) ∧ (f1 = 0 ∨ f2 = 0) then pure none else do
   let b13 ← idxR mb 13
   let b24 ← idxR mb 24
   let (spd, dir, spdType, dirType) : Option Int × Dir × String × String :=
